@@ -439,6 +439,7 @@ class Explorer:
                 for n, v in cand.items():
                     if n in self.symbols:
                         out[n] = {"str": v} if isinstance(v, str) else {"bytes": bytes(v).hex()} if isinstance(v, (bytes, bytearray)) else v
+                out["$realistic"] = True
                 return out
         return None
 
